@@ -116,9 +116,21 @@ def _content(lines, nl):
     return s
 
 
+def _scratch_base():
+    """A memory-backed directory when there is one (file creation is what dominates the run time);
+    otherwise the default temporary directory.  Either is outside /repo and /verif."""
+    shm = '/dev/shm'
+    if os.path.isdir(shm) and os.access(shm, os.W_OK | os.X_OK):
+        return shm
+    return None
+
+
+_BASE = _scratch_base()
+
+
 def _impl_aux(case):
     from pybtex import auxfile, errors
-    d = tempfile.mkdtemp(prefix='verif-c20-')
+    d = tempfile.mkdtemp(prefix='verif-c20-', dir=_BASE)
     real = os.path.realpath(d)
     assert not real.startswith('/repo') and not real.startswith(compat.VERIF + os.sep), real
     cwd = os.getcwd()
@@ -439,13 +451,22 @@ def exhaustive(tier):
             cases.append(_mk(files))
             k += 1
     counts['third<=%d x 2 frames' % (n - 2)] = k
-    # D: the matcher alone
+    # D: the matcher alone: every token string, and every body after each of these beginnings
     toks = ['\\', 'citation', 'bibdata', 'bibstyle', '@input', '{', '}', 'a', ',', ' ', '\n']
     k = 0
-    for t in _docs(toks, n):
+    for t in _docs(toks, n - 1):
         cases.append({'op': 'auxmatch', 's': ''.join(t)})
         k += 1
-    counts['matcher tokens<=%d' % n] = k
+    counts['matcher tokens<=%d' % (n - 1)] = k
+    heads = ['\\citation{', '\\bibdata{', '\\bibstyle{', '\\@input{', '\\citation', 'citation{', '\\ citation{', ' \\citation{',
+             '\\citationx{', '\\bib{', '\\bibstyle{\\bibdata{', '\\@input{}\\citation{']
+    body = ['a', 'B', ',', '}', '{', ' ', '\n']
+    k = 0
+    for h in heads:
+        for t in _docs(body, n):
+            cases.append({'op': 'auxmatch', 's': h + ''.join(t)})
+            k += 1
+    counts['matcher %d heads x body tokens<=%d' % (len(heads), n)] = k
     return cases, counts
 
 
